@@ -419,8 +419,11 @@ def trace_batch_sample(G, DI, U, out):
                 st.GENERIC_DISTINCT = False
         if not (isinstance(res, tuple) and res[0] == "instance"):
             raise TraceError("ImageBatch.sample(grid) does not build a new instance from the sampled data")
-        if res[2] != tuple(tg):
-            raise TraceError("ImageBatch.sample: the returned instance does not carry the target grid(s)")
+        nb = max(n_src, n_tgt)
+        want_grids = tuple(tg) if n_tgt == nb else tuple(tg) * nb
+        if len(res[2]) != nb or any(a is not b for a, b in zip(res[2], want_grids)):
+            raise TraceError(f"ImageBatch.sample: the returned instance does not carry one target grid per image "
+                             f"({len(res[2])} grid(s) for {nb} image(s))")
         c = rec.calls[0]
         if res[1] is None or not all(e.op == "var" and e.args[0].startswith("y") for e in res[1].a.reshape(-1)):
             raise TraceError("ImageBatch.sample: sampled data modified after grid_sample")
